@@ -289,6 +289,26 @@ class Parser:
             elif self.peek() == "?":
                 self.eat()
                 e = ("try", e)
+            elif self.peek() == "[":
+                self.eat()
+                lo = self.eat()
+                if not re.fullmatch(r"\d+", lo or ""):
+                    raise Untranslatable("index expression")
+                if self.peek() == "]":
+                    self.eat()
+                    e = ("index", e, ("num", int(lo)))
+                else:
+                    self.eat("."); self.eat(".")
+                    if self.peek() == "=":
+                        self.eat()
+                        hi = self.eat()
+                        if not re.fullmatch(r"\d+", hi or ""):
+                            raise Untranslatable("range bound")
+                        self.eat("]")
+                        e = ("index", e, ("range_incl", int(lo), int(hi)))
+                    else:
+                        self.eat("]")
+                        e = ("index", e, ("range_from", int(lo)))
             elif self.peek() == "{" and not nostruct and e[0] == "path" and len(e[1]) == 1 and e[1][0][0].isupper():
                 self.eat()
                 fields = []
@@ -1207,6 +1227,164 @@ def translate_receivers(read):
             "namespace Ross.Src\nopen Ross\n\n" + "\n".join(out) +
             "\n/-- receivers whose tail the translator could not translate on this run (they fall back to the model's `rxFrame`) -/\n"
             "def receiversNotTranslated : List String := [" + ", ".join('"%s"' % m for m in missing) + "]\n\nend Ross.Src\n")
+    return text, missing
+
+
+# ---------------------------------------------------------------- event decoders (src/event/*.rs)
+
+DEC_FIELDS = {
+    "bootloaderHello": ("BootloaderHelloEvent", ["programmer_address", "bootloader_address"]), "programmerHello": ("ProgrammerHelloEvent", ["programmer_address"]),
+    "startFirmwareUpgrade": ("ProgrammerStartFirmwareUpgradeEvent", ["receiver_address", "programmer_address", "firmware_size"]),
+    "ack": ("AckEvent", ["receiver_address", "transmitter_address"]), "configuratorHello": ("ConfiguratorHelloEvent", []),
+    "bcmChange": ("BcmChangeBrightnessEvent", ["bcm_address", "transmitter_address", "index", "value"]),
+    "buttonPressed": ("ButtonPressedEvent", ["receiver_address", "button_address", "index"]), "buttonReleased": ("ButtonReleasedEvent", ["receiver_address", "button_address", "index"]),
+    "systemTick": ("SystemTickEvent", ["receiver_address"]), "startConfigUpgrade": ("ProgrammerStartConfigUpgradeEvent", ["receiver_address", "programmer_address", "config_size"]),
+    "setDeviceAddress": ("ProgrammerSetDeviceAddressEvent", ["receiver_address", "programmer_address", "new_address"]),
+    "bcmAnimate": ("BcmAnimateBrightnessEvent", ["bcm_address", "transmitter_address", "index", "duration", "target_value"]),
+    "relaySet": ("RelaySetValueEvent", ["relay_address", "transmitter_address", "index", "value"]), "gatewayDiscover": ("GatewayDiscoverEvent", ["device_address", "gateway_address"]),
+}
+DEC_TYPES = {"bootloaderHello": ["u16", "u16"], "programmerHello": ["u16"], "startFirmwareUpgrade": ["u16", "u16", "u32"], "ack": ["u16", "u16"], "configuratorHello": [],
+             "bcmChange": ["u16", "u16", "u8", "bcm"], "buttonPressed": ["u16", "u16", "u8"], "buttonReleased": ["u16", "u16", "u8"], "systemTick": ["u16"],
+             "startConfigUpgrade": ["u16", "u16", "u32"], "setDeviceAddress": ["u16", "u16", "u16"], "bcmAnimate": ["u16", "u16", "u8", "u32", "bcm"],
+             "relaySet": ["u16", "u16", "u8", "relay"], "gatewayDiscover": ["u16", "u16"]}
+DEC_ERR = {"ConvertPacketError::WrongSize": ".wrongSize", "ConvertPacketError::WrongType": ".wrongType", "ConvertPacketError::UnknownEnumVariant": ".unknownEnumVariant"}
+
+
+class DecTranslator:
+    """translates one `try_from_packet` of the fourteen decoders without loops and transmutes: a chain of
+    `if COND { return Err(..); }`, `let x = READ;`, `Ok(Struct { .. })`. Every read that can panic (slice, index, `unwrap`)
+    is one of the primitives of `Spec/SrcPrims.lean`, sequenced with `Res.bind` in source order — also inside conditions."""
+
+    def __init__(self, kind, codes):
+        self.kind, self.codes, self.n = kind, codes, 0
+
+    def read(self, e, env):
+        """an expression that may panic: (lean Res term, type), or None when `e` is pure"""
+        # u16::from_be_bytes(packet.data[a..=b].try_into().unwrap())
+        if e[0] == "call" and e[1][0] == "path" and e[1][1] in (["u16::from_be_bytes"], ["u32::from_be_bytes"]) and len(e[2]) == 1:
+            a = e[2][0]
+            if (a[0] == "call" and a[1][0] == "field" and a[1][2] == "unwrap" and not a[2] and a[1][1][0] == "call" and a[1][1][1][0] == "field"
+                    and a[1][1][1][2] == "try_into" and not a[1][1][2] and a[1][1][1][1][0] == "index"):
+                ix = a[1][1][1][1]
+                if ix[1] == ("path", ["packet", "data"]) and ix[2][0] == "range_incl":
+                    w = e[1][1][0][:3]
+                    return ("Prim.be%sAt p.data %d %d" % (w[1:], ix[2][1], ix[2][2]), w)
+            raise Untranslatable("from_be_bytes of something else")
+        if e[0] == "index" and e[1] == ("path", ["packet", "data"]) and e[2][0] == "num":
+            return ("Prim.idx p.data %d" % e[2][1], "u8")
+        if e[0] == "try" and e[1][0] == "call" and e[1][1][0] == "path" and e[1][1][1] in (["BcmValue::deserialize"], ["RelayValue::deserialize"]) and len(e[1][2]) == 1:
+            a = e[1][2][0]
+            if a[0] == "index" and a[1] == ("path", ["packet", "data"]) and a[2][0] == "range_from":
+                de, ty = ("BcmValue.de", "bcm") if e[1][1][1][0].startswith("Bcm") else ("RelayValue.de", "relay")
+                return ("(Prim.tailFrom p.data %d).bind %s" % (a[2][1], de), ty)
+            raise Untranslatable("deserialize of something else")
+        return None
+
+    def pure(self, e, env):
+        if e[0] == "num":
+            return (str(e[1]), "int")
+        if e[0] == "path":
+            p = e[1]
+            if p == ["packet", "device_address"]:
+                return ("p.addr", "u16")
+            if p == ["packet", "is_error"]:
+                return ("p.isError", "bool")
+            if len(p) == 1 and p[0] in env:
+                return env[p[0]]
+            if len(p) == 1 and p[0] in self.codes:
+                return ("(%d : UInt16)" % self.codes[p[0]], "u16")
+            if p == ["BROADCAST_ADDRESS"]:
+                return ("BROADCAST", "u16")
+        if e[0] == "call" and e[1] == ("path", ["packet", "data", "len"]) and not e[2]:
+            return ("p.data.length", "usize")
+        raise Untranslatable("expression")
+
+    def value(self, e, env, k):
+        """evaluates `e`; `k(lean term, type)` continues; reads are bound first"""
+        r = self.read(e, env)
+        if r is not None:
+            self.n += 1
+            v = "x%d" % self.n
+            return "(%s).bind fun %s =>\n%s" % (r[0], v, k(v, r[1]))
+        if e[0] == "not":
+            return self.value(e[1], env, lambda t, ty: k("(!%s)" % t, ty) if ty == "bool" else (_ for _ in ()).throw(Untranslatable("! on " + ty)))
+        if e[0] == "cmp":
+            def k1(a, ta):
+                def k2(b, tb):
+                    t1, t2 = (tb if ta == "int" else ta), (ta if tb == "int" else tb)
+                    if t1 != t2 or t1 not in ("usize", "u16", "u8", "u32"):
+                        raise Untranslatable("comparison of %s and %s" % (ta, tb))
+                    return k(CMP_LEAN[e[1]] % (a, b) if e[1] in ("==", "!=") else CMP_LEAN[e[1]] % (a, b), "bool")
+                return self.value(e[3], env, k2)
+            return self.value(e[2], env, k1)
+        t, ty = self.pure(e, env)
+        return k(t, ty)
+
+    def stmts(self, ss, env, ind):
+        if not ss:
+            raise Untranslatable("fell off the end")
+        s, rest = ss[0], ss[1:]
+        if s[0] == "if" and s[1][0] == "cond" and s[3] is None and len(s[2]) == 1 and s[2][0][0] == "return":
+            err = self.err(s[2][0][1])
+            return self.value(s[1][1], env, lambda t, ty: "%sif %s then .err %s else\n%s" % (ind, t, err, self.stmts(rest, env, ind)) if ty == "bool" else (_ for _ in ()).throw(Untranslatable("condition")))
+        if s[0] == "let":
+            def k(t, ty):
+                env2 = dict(env)
+                env2[s[1]] = (t, ty)
+                return self.stmts(rest, env2, ind)
+            return ind + self.value(s[2], env, k).lstrip()
+        if s[0] in ("tail", "return") and not rest:
+            e = s[1]
+            if e[0] == "call" and e[1] == ("path", ["Ok"]) and len(e[2]) == 1 and e[2][0][0] == "struct" and e[2][0][1] in (DEC_FIELDS[self.kind][0], "Self"):
+                fields = dict(e[2][0][2])
+                want = DEC_FIELDS[self.kind][1]
+                if sorted(fields) != sorted(want):
+                    raise Untranslatable("fields of the result")
+                args = []
+                for f, ty in zip(want, DEC_TYPES[self.kind]):
+                    t, tt = self.pure(fields[f], env)
+                    if tt != ty:
+                        raise Untranslatable("field %s : %s" % (f, tt))
+                    args.append(t)
+                return "%s.ok (.%s%s)" % (ind, self.kind, "".join(" " + a for a in args))
+        raise Untranslatable("statement " + s[0])
+
+    def err(self, e):
+        if e[0] == "call" and e[1] == ("path", ["Err"]) and len(e[2]) == 1:
+            a = e[2][0]
+            if a[0] == "path" and len(a[1]) == 1 and a[1][0] in DEC_ERR:
+                return DEC_ERR[a[1][0]]
+            if a == ("call", ("path", ["ConvertPacketError::Event"]), [("path", ["EventError::WrongEventType"])]):
+                return ".wrongEventType"
+        raise Untranslatable("error value")
+
+
+def translate_decoders(bodies, codes):
+    """`bodies`: kind -> text of `fn try_from_packet` body (with braces); `codes`: constant name -> number.
+    Returns (lean text of Generated/Decoders.lean, [kinds not translated])"""
+    out, missing, done = [], [], []
+    for kind in DEC_FIELDS:
+        try:
+            if kind not in bodies:
+                raise Untranslatable("no try_from_packet found")
+            body = Parser(tokenize(bodies[kind])).block()
+            text = DecTranslator(kind, codes).stmts(body, {}, "  ")
+            text = "\n".join(l if l.startswith(" ") else "  " + l for l in text.split("\n"))
+            out.append("/-- translated from `%s::try_from_packet` in src/event -/\ndef decode_%s (p : Packet) : Res CErr Event :=\n%s\n" % (DEC_FIELDS[kind][0], kind, text))
+            done.append(kind)
+        except (Untranslatable, KeyError, TypeError, IndexError) as ex:
+            missing.append(DEC_FIELDS[kind][0] + "::try_from_packet")
+            out.append("/-- `%s::try_from_packet` could not be translated on this run (%s): this is the hand-written model's definition -/\ndef decode_%s (p : Packet) : Res CErr Event :=\n  decode .%s p\n"
+                       % (DEC_FIELDS[kind][0], str(ex).replace("-/", ""), kind, kind))
+    disp = "\n".join("  | .%s => decode_%s p" % (k, k) for k in DEC_FIELDS)
+    text = ("import RossModel.Spec.SrcPrims\n"
+            "/-! GENERATED by bin/extract (bin/rust2lean.py) from src/event/*.rs of the repository under verification — do not edit.\n"
+            "Every run of a check regenerates this file from /repo's working tree before building the theorems. -/\n"
+            "namespace Ross.Src\nopen Ross\n\n" + "\n".join(out) +
+            "\n/-- the decoder of every kind: the translated one where there is one (the data and message decoders — a copy loop, a\n`transmute_copy` — are outside the translated subset and are the model's) -/\n"
+            "def decodeK (k : Kind) (p : Packet) : Res CErr Event :=\n  match k with\n" + disp + "\n  | k => decode k p\n"
+            "\n/-- decoders the translator could not translate on this run (they fall back to the model's `decode`) -/\n"
+            "def decodersNotTranslated : List String := [" + ", ".join('"%s"' % m for m in missing) + "]\n\nend Ross.Src\n")
     return text, missing
 
 
